@@ -25,7 +25,7 @@ Record bdump := mkBD {
   bd_cursor : N; bd_qdep : list ddump; bd_qpaid : list (N * rdump); bd_qrej : list N;
 }.
 
-Inductive brop := ROp (o : bop) | RDump (d : bdump).
+Inductive brop := ROp (o : bop) | RDump (d : bdump) | RThr (table : list (N * N)).
 (* observed: class, dequeued txs (kind 0 hash / 1 deposit / 2 paid / 3 reject, nonce, a, b, payload bytes, payload2) *)
 Definition txdump : Type := (N * N * N * N * bytes * bytes)%type.
 Definition bobs : Type := (N * list txdump)%type.
@@ -108,6 +108,15 @@ Definition ginvb (s : bstate) : bool :=
   nodupb (ms ++ r_on s) && forallb (fun a => statusb s a (fun st => (st =? 4) || (st =? 3))) ms
   && forallb (fun a => statusb s a (fun st => st =? 2)) (r_on s)
   && (1 <=? length (filter (fun a => negb (existsb (N.eqb a) (r_off s))) ms))%nat.
+(* 15: the queue invariant of Proofs/BridgeQueueInv (C18): the boarding queues are exactly the records with
+   status 2 / 3 *)
+Definition qinvb (s : bstate) : bool :=
+  nodupb (r_on s) && nodupb (r_off s)
+  && forallb (fun a => statusb s a (fun st => st =? 2)) (r_on s)
+  && forallb (fun a => statusb s a (fun st => st =? 3)) (r_off s)
+  && forallb (fun av => let '(a, v) := av in
+                if vt_status v =? 2 then existsb (N.eqb a) (r_on s)
+                else if vt_status v =? 3 then existsb (N.eqb a) (r_off s) else true) (map_to_list (r_voter s)).
 Definition wstat (s : bstate) (id : N) : N := match b_wd s !! id with Some w => w_status w | None => 0 end.
 Definition noticesb (s : bstate) : bool :=
   nodupb (g_paid s) && nodupb (g_refund s)
@@ -127,8 +136,11 @@ Definition bstep (chain : bytes) (mask : list bool) (s : bstate) (o : brop) (ob 
   | RDump d => (s, match bfirst_bad (firstn 10 mask) 0 s d with
                     | Some c => Some c
                     | None => if nth 2 mask false && negb (ginvb s) then Some 12
-                              else if nth 7 mask false && negb (noticesb s) then Some 13 else None
+                              else if nth 7 mask false && negb (noticesb s) then Some 13
+                              else if nth 2 mask false && negb (qinvb s) then Some 15 else None
                     end)
+  (* what the real Relayer.Threshold() answered for these group sizes *)
+  | RThr t => (s, if nth 0 mask false && negb (forallb (fun nt => threshold (fst nt) =? snd nt) t) then Some 14 else None)
   end.
 
 Fixpoint brun (chain : bytes) (mask : list bool) (s : bstate) (i : N) (ops : list (brop * bobs)) : option (N * N) :=
